@@ -1,4 +1,7 @@
 import Proofs.C04
+import Proofs.TieWrap
+import Proofs.TieSite
+import Proofs.TieImages
 #print axioms PV.Proofs.C04.stepChar_cast
 #print axioms PV.Proofs.C04.runChars_cast
 #print axioms PV.Proofs.C04.init_cast
@@ -16,3 +19,14 @@ import Proofs.C04
 #print axioms PV.Proofs.C04.copies_eq_order
 #print axioms PV.Proofs.C04.initial_cell_in_family
 #print axioms PV.Proofs.C04.inFamily_depends_on_angle_only
+#print axioms PV.Proofs.Tie.declared_translated_wrap
+#print axioms PV.Proofs.Tie.periodic_position_tie
+#print axioms PV.Proofs.Tie.declared_translated_site
+#print axioms PV.Proofs.Tie.site_transform_tie
+#print axioms PV.Proofs.Tie.site_multiplicity_tie
+#print axioms PV.Proofs.Tie.site_positions_tie
+#print axioms PV.Proofs.Tie.declared_translated_images
+#print axioms PV.Proofs.Tie.to_cartesian_point_tie
+#print axioms PV.Proofs.Tie.to_cartesian_isometry_tie
+#print axioms PV.Proofs.Tie.to_cartesian_translate_tie
+#print axioms PV.Proofs.Tie.periodic_images_tie
